@@ -85,6 +85,8 @@ def run_family(R, tier, rng, ops):
                 add("colmean", "colmean " + show(Rw), lambda: [float(x) for x in np.asarray(mk().mean(axis=0), dtype=float)], rows=Rw)
                 Rbig = [[{3: 2 ** 53 + 1, -5: -(2 ** 62), 7: 2 ** 60 + 1}.get(v, v) for v in r] for r in Rw]   # sums that are not float64 values
                 add("colsum", "colsum " + show(Rbig), lambda: [int(x) for x in RaggedArray(Rbig, dtype=np.int64).sum(axis=0)], rows=Rbig)
+            if all(len(r) for r in Rw):
+                add("rowmean", "rowmean " + show(Rw), lambda: [float(x) for x in np.asarray(mk().mean(axis=-1), dtype=float)], rows=Rw)
             add("argmax", "argmax " + show(Rw), lambda: L(mk().argmax(axis=-1)), rows=Rw)
             add("argmin", "argmin " + show(Rw), lambda: L(mk().argmin(axis=-1)), rows=Rw)
     out = oracle([c[0] for c in cases])
@@ -94,7 +96,7 @@ def run_family(R, tier, rng, ops):
             R.record(line, impl, "oracle-error: " + o[:80], "oracle-error: " + o[:80], nt, op); continue
         m, s = parse(o)
         if kind == "single": s = m
-        if op == "colmean":       # the model and the specification keep the exact fraction (column sum, column count); the division is numpy's
+        if op in ("colmean", "rowmean") and m is not None:       # the model and the specification keep the exact fraction (column sum, column count); the division is numpy's
             m = [float(np.float64(a_) / np.float64(b_)) for a_, b_ in m]; s = [float(np.float64(a_) / np.float64(b_)) for a_, b_ in s]
         if op in ("argmax", "argmin") and impl is None and not any(rows): continue      # numpy itself refuses when every row is empty
         R.record(line, impl, m, s, nt, op)
